@@ -1,19 +1,20 @@
-"""Registry of properties -> targets.  Each target is one binary built against /repo's working tree."""
-OSSL = ['-lssl', '-lcrypto']
+"""Registry of properties -> targets.  Each props/<ID>/reg.py defines PROP = dict(level, level_text, level_note,
+technique, rule, assumptions, targets=[...]).  A target is one binary built against /repo's working tree:
+  dict(name, src=[paths relative to /verif], libs=[...], wraps=[symbols for ld --wrap], engine='tape'|'libfuzzer',
+       variant='asan'|'tsan', defs=[...], args=[...], env={...},
+       quick=dict(cases=N, secs=T[, shards=K]), thorough=dict(...))
+  libfuzzer targets additionally: corpus=[dirs relative to /verif], max_len, timeout, dict, hang_is_violation."""
+import glob, importlib.util, os
 
+VERIF = os.path.dirname(os.path.dirname(os.path.abspath(__file__)))
+OSSL = ['-lssl', '-lcrypto']
 PROPS = {}
 # Properties deliberately not claimed (with reason); anything absent from PROPS and from here is "not built yet".
 NOT_APPLICABLE = {}
 
-PROPS['C13'] = dict(
-    level='exploration',
-    level_text='Generated differential testing of every pstm_* operation against GMP over operand sizes/values/aliasing chosen to reach each size-specialised code path; finds wrong results with high probability where they depend on operand shape, proves nothing about unexplored operands.',
-    level_note='Trusted: GMP, the harness conversion via byte strings. Functions are exercised inside the operand domain their in-tree callers use (documented per operation in props/C13).',
-    technique='property-based differential testing vs GMP (tape generators + shrinking)',
-    rule='cases = (operation, operand digit counts, structured value classes, aliasing pattern) drawn from the tape; '
-         'oracle = GMP on the same byte strings + algebraic identities; non-trivial = operands of >= 2 digits with an edge-class '
-         'value or aliasing; distinct = distinct (op, digit-count pair, value classes, alias pattern)',
-    assumptions=['GMP 6.2 is correct', 'functions are called inside the domain their in-tree callers use'],
-    targets=[dict(name='c13_bignum', src=['props/C13/bignum.cc'], libs=['-lgmp'],
-                  quick=dict(cases=400000, secs=60), thorough=dict(cases=40000000, secs=900))],
-)
+for _f in sorted(glob.glob(os.path.join(VERIF, 'props', 'C*', 'reg.py'))):
+    _pid = os.path.basename(os.path.dirname(_f))
+    _spec = importlib.util.spec_from_file_location('reg_' + _pid, _f)
+    _m = importlib.util.module_from_spec(_spec)
+    _spec.loader.exec_module(_m)
+    PROPS[_pid] = _m.PROP
